@@ -6,10 +6,11 @@
 set -u
 WT="$1"; NAME="$2"; PROP="$3"; NEEDS="$4"
 DIR="$(cd "$(dirname "$0")/.." && pwd)"
-DEMO="$(ls "$WT"/deliver/demo_*.rs | head -1)"
+DEMO="$(ls "$WT"/deliver/demo*_*.rs | head -1)"
 DEMONAME="$(basename "$DEMO" .rs)"
 cd "$WT" || exit 2
 git checkout -q -- . 2>/dev/null
+rm -f marwood/tests/demo*_c*.rs
 cp "$DEMO" "marwood/tests/$DEMONAME.rs"
 echo "-- unmodified tree: demo must pass"
 cargo test -p marwood --offline --test "$DEMONAME" >/tmp/confirm-a.txt 2>&1; a=$?
